@@ -25,7 +25,7 @@ def gen_records(rng, n, sparse=False, wide=False):
 
 
 def to_dkvp(recs):
-    return "".join(",".join("%s=%s" % kv for kv in r) + "\n" for r in recs)
+    return "".join(",".join("%s=%s" % (k, v) for k, v in r) + "\n" for r in recs)
 
 
 def to_json(recs):
